@@ -1,0 +1,26 @@
+//go:build verif
+
+// Contracts for package baseorbitdb, read by /verif/govc. Comments only.
+package baseorbitdb
+
+// ---- C12 / C09: heads received over the direct channel ----
+// The store that receives the heads is the one registered under the message's address.
+//@ func (*orbitDB).handleEventExchangeHeads
+//@   props C12 C09
+//@   flag nilcalls
+//@   requires e != nil && o.logger != nil
+//@   requires store != nil && (e.Address in o.stores) && o.stores[e.Address] == store
+//@   loop 1 invariant len(untypedHeads) == len(e.Heads)
+//@   ensures len(old(e.Heads)) > 0 ==> syncCalls(store) == old(syncCalls(store)) + 1
+//@   ensures len(old(e.Heads)) == 0 ==> syncCalls(store) == old(syncCalls(store))
+//@   modifies syncCalls(store), "F:entry.Entry.Next", "F:entry.Entry.Refs"
+
+// The direct-channel listener: arbitrary payload bytes are decoded or dropped, a message for an unknown
+// address is dropped, nothing panics, and the loop ends only with the context.
+//@ func (*orbitDB).monitorDirectChannel$1
+//@   props C12 C09
+//@   flag nilcalls
+//@   requires o != nil && o.messageMarshaler != nil && o.logger != nil && o.emitters.newHeads != nil && sub != nil
+//@   requires forall a Str :: (a in o.stores) ==> o.stores[a] != nil
+//@   flag assume-typeassert
+//@   loop 1 noexit
